@@ -256,9 +256,9 @@ func (m *ModuleInstance) validateData(data []DataSegment) (err error) {
 	for i := range data {
 		d := &data[i]
 		if !d.IsPassive() {
-			offset := int(executeConstExpressionI32(m.Globals, &d.OffsetExpression))
-			ceil := offset + len(d.Init)
-			if offset < 0 || ceil > len(m.MemoryInstance.Buffer) {
+			// The offset is an unsigned 32-bit address.
+			offset := uint64(uint32(executeConstExpressionI32(m.Globals, &d.OffsetExpression)))
+			if offset+uint64(len(d.Init)) > uint64(len(m.MemoryInstance.Buffer)) {
 				return fmt.Errorf("%s[%d]: out of bounds memory access", SectionIDName(SectionIDData), i)
 			}
 		}
@@ -275,8 +275,9 @@ func (m *ModuleInstance) applyData(data []DataSegment) error {
 		d := &data[i]
 		m.DataInstances[i] = d.Init
 		if !d.IsPassive() {
-			offset := executeConstExpressionI32(m.Globals, &d.OffsetExpression)
-			if offset < 0 || int(offset)+len(d.Init) > len(m.MemoryInstance.Buffer) {
+			// The offset is an unsigned 32-bit address.
+			offset := uint64(uint32(executeConstExpressionI32(m.Globals, &d.OffsetExpression)))
+			if offset+uint64(len(d.Init)) > uint64(len(m.MemoryInstance.Buffer)) {
 				return fmt.Errorf("%s[%d]: out of bounds memory access", SectionIDName(SectionIDData), i)
 			}
 			copy(m.MemoryInstance.Buffer[offset:], d.Init)
